@@ -323,3 +323,131 @@ func (c *Ctx) ForkJoinRules(prop string) {
 	c.R.Floor(rule, "functions between RunRules and the stateful rules", n, 3)
 	c.R.OK(rule, Fn(r.RunRules), c.P.FuncPos(r.RunRules), fmt.Sprintf("%d functions lie between RunRules and the stateful rules; the only goroutine start among them is in the validated fork/join helper", n))
 }
+
+// ScatterIndexDiscipline (C08.O6 / C04.O8): inside every closure passed to util.Scatter each captured slice is read and
+// written only at the induction variable of the worker loop, and no captured scalar is written.
+func (c *Ctx) ScatterIndexDiscipline(prop string) {
+	rule := "C08.O6 scatter.index-discipline"
+	sc := c.ScatterHelper(rule)
+	if sc == nil {
+		return
+	}
+	n := 0
+	for _, fn := range c.P.ModuleFuncs() {
+		if prog.IsTestish(prog.PkgPathOf(fn)) {
+			continue
+		}
+		for _, ci := range Calls(fn, func(ci ssa.CallInstruction) bool { return ci.Common().StaticCallee() == sc }) {
+			mc, ok := ci.Common().Args[1].(*ssa.MakeClosure)
+			if !ok {
+				c.R.Unknown(rule, Fn(fn), c.Pos(ci), "the work function passed to Scatter is not a closure literal")
+				continue
+			}
+			W := mc.Fn.(*ssa.Function)
+			n++
+			l, ok := scatterLoopIdx(W)
+			if !ok {
+				c.R.Fail(rule, Fn(W), c.P.FuncPos(W), "the worker is not of the form `for i := offset; i < offset+entries; i++`: it may touch positions that belong to other workers", "worker loop over [offset, offset+entries)", nil)
+				continue
+			}
+			bad := 0
+			for _, f := range WithClosures(W) {
+				for _, b := range f.Blocks {
+					for _, ins := range b.Instrs {
+						switch x := ins.(type) {
+						case *ssa.IndexAddr:
+							// captured slice: root reached through a free-variable cell
+							u, ok := x.X.(*ssa.UnOp)
+							if !ok {
+								continue
+							}
+							if _, isFV := u.X.(*ssa.FreeVar); !isFV {
+								continue
+							}
+							if x.Index != l.Idx {
+								// reads of immutable inputs with len-guards (len(pubKeys) > i) still use i; anything else is a violation
+								bad++
+								c.R.Fail(rule, Fn(W)+":"+an.Term(u.X), c.Pos(x), "a captured slice is indexed with "+an.Term(x.Index)+" instead of the worker's own loop variable: workers would read or write each other's positions", "captured slices only at [i]", nil)
+							}
+						case *ssa.Store:
+							if fv, ok := x.Addr.(*ssa.FreeVar); ok {
+								bad++
+								c.R.Fail(rule, Fn(W)+":"+fv.Name(), c.Pos(x), "a captured variable is assigned from concurrent workers", "workers write only their own slice positions", nil)
+							}
+						}
+					}
+				}
+			}
+			// the loop must not be left early other than by return (break would skip positions): breaks are tolerated only when every skipped position keeps a non-approving default
+			if bad == 0 {
+				c.R.OK(rule, Fn(W), c.P.FuncPos(W), "captured slices are accessed only at the worker loop's own index; no captured scalar is written")
+			}
+		}
+	}
+	c.R.Floor(rule, "closures passed to Scatter", n, 6)
+}
+
+// RulerKeyAgreement (C04.O5, dispatch side): the public key in the metadata handed to the rules is the PubKey of the very
+// rules-data entry whose Data is evaluated.
+func (c *Ctx) RulerKeyAgreement(prop string) {
+	rule := "C04.O5 key-agreement/metadata"
+	r := c.Ruler(prop + ".anchors")
+	if !r.OK() {
+		return
+	}
+	n := 0
+	for _, fn := range c.StaticReach(r.RunRules, 6) {
+		for _, b := range fn.Blocks {
+			for _, ins := range b.Instrs {
+				st, ok := ins.(*ssa.Store)
+				if !ok {
+					continue
+				}
+				fa, ok := st.Addr.(*ssa.FieldAddr)
+				if !ok || !namedIs(fa.X.Type(), pkgRules, "ReqMetadata") || fieldNameOf(fa) != "PubKey" {
+					continue
+				}
+				n++
+				// value: a parameter of a helper, or directly a RulesData.PubKey load
+				check := func(v ssa.Value, where ssa.Instruction, inFn *ssa.Function) {
+					owner, f, base := an.FieldOf(v)
+					if owner == nil || f != "PubKey" || !namedIs(owner, pkgRuler, "RulesData") {
+						c.R.Fail(rule, Fn(inFn), c.Pos(where), "the metadata's public key (which keys the watermark) is not the PubKey of the rules-data entry: "+an.Term(v), "metadata.PubKey = rulesData[i].PubKey", nil)
+						return
+					}
+					_, idx, ok := elemLoad(base)
+					if !ok {
+						c.R.Fail(rule, Fn(inFn), c.Pos(where), "the metadata's public key is not taken from an element of the request list", "metadata.PubKey = rulesData[i].PubKey", nil)
+						return
+					}
+					if l, ok := scatterLoopIdx(inFn); !ok || l.Idx != idx {
+						c.R.Fail(rule, Fn(inFn), c.Pos(where), "the metadata's public key is taken from another position than the one being evaluated", "metadata.PubKey = rulesData[i].PubKey at the worker's own index", nil)
+						return
+					}
+					c.R.OK(rule, Fn(inFn), c.Pos(where), "metadata.PubKey = rulesData[i].PubKey at the worker's own index (the lock key and the database key derive from the same bytes)")
+				}
+				if p, ok := st.Val.(*ssa.Parameter); ok {
+					pi := -1
+					for i, pp := range fn.Params {
+						if pp == p {
+							pi = i
+						}
+					}
+					nc := 0
+					for _, caller := range c.StaticReach(r.RunRules, 6) {
+						for _, ci := range Calls(caller, func(ci ssa.CallInstruction) bool { return ci.Common().StaticCallee() == fn }) {
+							nc++
+							check(ci.Common().Args[pi], ci, caller)
+						}
+					}
+					if nc == 0 {
+						c.R.Unknown(rule, Fn(fn), c.Pos(st), "metadata builder has no call site below RunRules")
+					}
+				} else {
+					check(st.Val, st, fn)
+				}
+			}
+		}
+	}
+	c.R.Floor(rule, "constructions of rules metadata below RunRules", n, 1)
+}
